@@ -32,7 +32,7 @@ RXV_SUBCOMMAND(c08) {
 	ip::enableGuards(true);
 	const unsigned long TOTAL = randomx_dataset_item_count();
 	for (const char* f : { "calls", "calls_count_lt_4", "calls_count_mod4_nonzero", "calls_count_mod4_zero", "calls_count_zero", "calls_ending_at_last_item", "calls_start_0", "items_compared_light", "items_compared_model", "canary_bytes_checked",
-		"threaded_rounds", "write_records", "initialiser_compiled", "initialiser_interpreter", "partitions", "edge_grid_calls", "small_calls_ending_at_last_item" }) R.floorKey(f);
+		"threaded_rounds", "write_records", "initialiser_compiled", "initialiser_interpreter", "partitions", "edge_grid_calls", "small_calls_ending_at_last_item", "large_single_calls" }) R.floorKey(f);
 	if (thorough && args.shard == 0) R.floorKey("full_dataset_items_compared");
 
 	std::vector<uint8_t> key = cases::makeKey(rng, args.shard);
@@ -88,6 +88,35 @@ RXV_SUBCOMMAND(c08) {
 				R.evaluation(); R.nontrivial(fnv1a(cj.data(), cj.size()));
 				{ std::lock_guard<std::mutex> l(g_wmu); g_writes.clear(); }
 			}
+			R.clearCase();
+		}
+		// ---- one large single call per cache: counts beyond 2^16 (and, on shard 1, beyond 2^17) at an interior start - a per-call
+		// counter narrower than the count only shows when ONE call processes that many items; items at the head, around every
+		// multiple of 65536 and at the tail, plus a random sample, are compared with the light-mode item; canaries on both sides
+		if (args.shard < (jit ? 4u : 2u)) {
+			const unsigned long c = (args.shard == 1 ? 131072UL : 65536UL) + 1 + (unsigned long)rng.below(jit ? 70000 : 3000);
+			const unsigned long st = 64 + (unsigned long)rng.below(TOTAL - c - 128);
+			std::string cj = "{\"key\":\"" + keyHex + "\",\"initialiser\":\"" + (jit ? "compiled" : "interpreter") + "\",\"large_single_call\":true,\"start\":" + std::to_string(st) + ",\"count\":" + std::to_string(c) + "}";
+			R.setCase(cj);
+			memset(mem + (st - 8) * 64, 0x5c, (c + 16) * 64);
+			api::threadIndex() = 0;
+			api::initDataset(ds, cache, st, c);
+			bool ok = true;
+			for (unsigned long i = (st - 8) * 64; i < st * 64 && ok; ++i) if (mem[i] != 0x5c) ok = false;
+			for (unsigned long i = (st + c) * 64; i < (st + c + 8) * 64 && ok; ++i) if (mem[i] != 0x5c) ok = false;
+			if (!ok) R.violation(std::string("C08:canary:bytes-outside-requested-range-changed:") + (jit ? "compiled" : "interpreter"), cj);
+			std::vector<unsigned long> probe;
+			for (unsigned long k = 0; k < 6; ++k) { probe.push_back(st + k); probe.push_back(st + c - 1 - k); }
+			for (unsigned long m = 65536; m < c; m += 65536) for (long d = -3; d <= 3; ++d) if (m + d < c) probe.push_back(st + m + d);
+			for (int k = 0; k < 300; ++k) probe.push_back(st + (unsigned long)rng.below(c));
+			for (unsigned long it : probe) {
+				uint8_t light[64]; { ip::Api s("initDatasetItem"); randomx::initDatasetItem(cache, light, it); }
+				if (memcmp(light, mem + it * 64, 64)) { R.violation(std::string("C08:differential:dataset-item-differs-from-light-item:") + (jit ? "compiled" : "interpreter"), "{\"case\":" + cj + ",\"item\":" + std::to_string(it) + ",\"offset_in_call\":" + std::to_string(it - st) + "}"); break; }
+				R.count("items_compared_light");
+			}
+			R.count("calls"); R.count("large_single_calls"); R.count(c % 4 ? "calls_count_mod4_nonzero" : "calls_count_mod4_zero");
+			R.evaluation(); R.nontrivial(fnv1a(cj.data(), cj.size()));
+			{ std::lock_guard<std::mutex> l(g_wmu); g_writes.clear(); }
 			R.clearCase();
 		}
 		for (uint64_t round = 0; round < nRounds; ++round) {
